@@ -152,6 +152,7 @@ type TermTable struct {
 	fls    *Term
 	Vars   map[string]*Term // declared variables by name
 	UFs    map[string]ufSig
+	exMemo map[[3]int]*Term // Extract(hi, lo, term id) results (sinking through shared sub-DAGs)
 }
 
 type ufSig struct {
@@ -795,6 +796,22 @@ func (tt *TermTable) Extract(hi, lo int, a *Term) *Term {
 	if a.IsConst() {
 		return tt.BV(nw, new(big.Int).Rsh(a.c, uint(lo)))
 	}
+	if len(a.args) > 0 {
+		if tt.exMemo == nil {
+			tt.exMemo = map[[3]int]*Term{}
+		}
+		k := [3]int{a.id, hi, lo}
+		if r, ok := tt.exMemo[k]; ok {
+			return r
+		}
+		r := tt.extract1(hi, lo, nw, w, a)
+		tt.exMemo[k] = r
+		return r
+	}
+	return tt.extract1(hi, lo, nw, w, a)
+}
+
+func (tt *TermTable) extract1(hi, lo, nw, w int, a *Term) *Term {
 	switch a.op {
 	case OExtract:
 		return tt.Extract(hi+a.i2, lo+a.i2, a.args[0])
@@ -851,7 +868,10 @@ func (tt *TermTable) Extract(hi, lo int, a *Term) *Term {
 			}
 		}
 	case OIte:
-		if a.args[1].IsConst() || a.args[2].IsConst() {
+		// always through constant arms; a word-sized low part of a wide (big-number) value also
+		// sinks through arbitrary arms, so that a ring projection of a long product chain is built
+		// at the narrow width
+		if a.args[1].IsConst() || a.args[2].IsConst() || (lo == 0 && nw <= 64 && w >= 256) {
 			return tt.Ite(a.args[0], tt.Extract(hi, lo, a.args[1]), tt.Extract(hi, lo, a.args[2]))
 		}
 	}
